@@ -52,14 +52,23 @@ fn main() {
             let p = find(&args[2]);
             let tier = Tier::parse(&args[3]);
             let n = |i: usize| args[i].parse::<u64>().unwrap_or(0);
-            worker_main(p, tier, n(4), n(5), n(6), n(7), n(8));
+            let first = args.get(9).and_then(|s| s.parse::<u64>().ok()).unwrap_or(0);
+            worker_main(p, tier, n(4), n(5), n(6), n(7), n(8), first);
             0
         }
         "replay" => {
             if args.len() < 3 {
                 usage();
             }
-            let c = replay_main(&props, &args[2]);
+            let c = replay_main(&props, &args[2], false);
+            inst::cleanup_scratch();
+            c
+        }
+        "replay-inner" => {
+            if args.len() < 3 {
+                usage();
+            }
+            let c = replay_main(&props, &args[2], true);
             inst::cleanup_scratch();
             c
         }
